@@ -2,12 +2,30 @@
    panic site, every range over a Go map and every clock / randomness use in the consensus code must be
    accounted for here.  A site that is not listed breaks the obligation [unaccounted ... = []] that the
    checks of C06 / C07 compile on every run against the inventory of the CURRENT source. *)
-From Coq Require Import String List Bool.
+From Coq Require Import String Ascii List Bool Arith.
 Import ListNotations.
 Open Scope string_scope.
 
+(* A site is "file|function|kind|expression".  It is matched on file, kind and expression: extracting a helper or
+   renaming a function inside a file does not change what can panic / iterate.  Counting keeps a NEW site with the
+   text of an old one visible: the source may not contain more sites of a key than the table accounts for. *)
+Fixpoint drop_to_bar (s : string) : string :=
+  match s with
+  | EmptyString => EmptyString
+  | String c r => if Ascii.eqb c "|" then r else drop_to_bar r
+  end.
+Fixpoint take_to_bar (s : string) : string :=
+  match s with
+  | EmptyString => EmptyString
+  | String c r => if Ascii.eqb c "|" then EmptyString else String c (take_to_bar r)
+  end.
+Definition site_key (s : string) : string := take_to_bar s ++ "|" ++ drop_to_bar (drop_to_bar s).
+Definition count_key (k : string) (l : list string) : nat := length (filter (String.eqb k) l).
+
 Definition unaccounted (sites : list string) (table : list (string * string)) : list string :=
-  filter (fun s => negb (existsb (fun e : string * string => String.eqb s (fst e)) table)) sites.
+  let tk := map (fun e : string * string => site_key (fst e)) table in
+  let sk := map site_key sites in
+  filter (fun s => Nat.ltb (count_key (site_key s) tk) (count_key (site_key s) sk)) sites.
 
 Definition panic_table : list (string * string) := [
   ("app/ante/ante.go|NewAnteHandler|assert|tx.(authante.HasExtensionOptionsTx)",
